@@ -26,6 +26,26 @@ pub struct NetSpec {
     pub horizon_ns: u64,
     pub delay_min_ns: u64,
     pub delay_max_ns: u64,
+    /// per node: oscillator (initial offset ns, error ppm); None = perfect clock
+    pub oscillators: Vec<Option<(i64, f64)>>,
+    /// per node: run the real Kalman filter behind the ports
+    pub kalman: Vec<bool>,
+    /// per-frame jitter instead of the per-(node, second) delay choice
+    pub per_frame: Option<Jitter>,
+    /// how long after an event message leaves the host reports its transmit timestamp
+    /// (0: right away, before anything else happens)
+    pub tx_ts_latency_ns: u64,
+}
+
+/// per-frame delay = delay_min + pattern(k) * (delay_max - delay_min); every frame is a choice
+/// point: 0 = the pattern's value, 1 = the opposite extreme, 2 = the frame is lost
+#[derive(Clone, Debug)]
+pub struct Jitter {
+    /// 0 = all-min, 1 = alternating min/max, 2 = low-discrepancy sequence
+    pub pattern: u8,
+    pub seed: u64,
+    /// only frames sent in [from, to) are choice points (others take the pattern's value)
+    pub choice_window_ns: (u64, u64),
 }
 
 #[derive(Clone, Debug, PartialEq)]
@@ -80,6 +100,8 @@ pub struct NodeView {
 pub struct Snapshot {
     pub t: u64,
     pub nodes: Vec<NodeView>,
+    /// local reading minus true time per node, in 2^-32 ns
+    pub offsets: Vec<i128>,
 }
 
 #[derive(Clone, Debug, Default)]
@@ -87,6 +109,8 @@ pub struct SimResult {
     pub snapshots: Vec<Snapshot>,
     /// (time, node, port, message type) of every frame put on a segment
     pub sent: Vec<(u64, usize, usize, u8)>,
+    /// every clock command: (time, node, port tag, command, accepted)
+    pub clock_cmds: Vec<(u64, usize, u16, ClockCmd, bool)>,
     /// every port state change: (time, node, port, from, to)
     pub transitions: Vec<(u64, usize, usize, PS, PS)>,
     /// (time, node, port, message type) of every frame delivered to a port
@@ -111,6 +135,7 @@ impl Queue {
 enum EvKind {
     Deliver { node: usize, port: usize, bytes: Vec<u8>, event: bool },
     Timer { node: usize, port: usize, timer: usize, gen: u64 },
+    TxTs { node: usize, port: usize, id: u64 },
     Bmca { node: usize },
     Fault(usize),
     Snapshot,
@@ -124,10 +149,28 @@ pub fn simulate(spec: &NetSpec, faults: &[(u64, Fault)], choices: &mut Choices, 
     let mut specs = spec.nodes.clone();
     for n in specs.iter_mut() {
         for p in n.ports.iter_mut() {
-            p.rng = [0.5, 0.05, 0.95][choices.choose(3)];
+            if p.rng_cycle.is_empty() {
+                p.rng = [0.5, 0.05, 0.95][choices.choose(3)];
+            }
         }
     }
-    let mut nodes: Vec<Node<'_, RecFilter>> = insts.iter().zip(specs.iter()).map(|(i, s)| Node::new(i, s, |_| RecCfg(Default::default(), false))).collect();
+    let mut nodes: Vec<Node<'_, RecFilter>> = insts
+        .iter()
+        .zip(specs.iter())
+        .enumerate()
+        .map(|(ni, (i, s))| {
+            let kal = if spec.kalman.get(ni).copied().unwrap_or(false) { Some(statime::filters::KalmanConfiguration::default()) } else { None };
+            Node::new(i, s, |_| RecCfg { log: Default::default(), in_key: false, kalman: kal })
+        })
+        .collect();
+    for (ni, n) in nodes.iter().enumerate() {
+        if let Some(Some((off, ppm))) = spec.oscillators.get(ni) {
+            n.clock.borrow_mut().osc = Some(Osc::new(*off, *ppm));
+        }
+        SimClock::advance_to(&n.clock, 0);
+    }
+    let mut frame_counter = 0u64;
+    let mut clock_seen = vec![0usize; nodes.len()];
     let mut res = SimResult::default();
     let mut heap = Queue { heap: BinaryHeap::new(), seq: 0 };
     fn push(q: &mut Queue, t: u64, k: EvKind) {
@@ -154,6 +197,8 @@ pub fn simulate(spec: &NetSpec, faults: &[(u64, Fault)], choices: &mut Choices, 
     }
     push(&mut heap, snapshot_every_ns, EvKind::Snapshot);
     let mut now = 0u64;
+    let mut tx_id = 0u64;
+    let mut tx_wait: std::collections::HashMap<u64, (statime::port::TimestampContext, statime::time::Time)> = Default::default();
     loop {
         // host-side handling of returned actions
         while let Some((ni, pi, acts)) = pending.pop() {
@@ -172,10 +217,18 @@ pub fn simulate(spec: &NetSpec, faults: &[(u64, Fault)], choices: &mut Choices, 
                         push(&mut heap, now + d.as_nanos() as u64, EvKind::Timer { node: ni, port: pi, timer: idx, gen: gens[ni][pi][idx] });
                     }
                     Act::SendEvent { ctx, data, .. } => {
-                        transmit(spec, &segments, &silenced, &mut delay_choice, choices, &mut heap, &mut res, now, ni, pi, data, true);
+                        transmit(spec, &segments, &silenced, &mut delay_choice, choices, &mut heap, &mut res, now, ni, pi, data, true, &mut frame_counter);
+                        if let (Some(c), true) = (ctx.take_if(|_| spec.tx_ts_latency_ns > 0), spec.tx_ts_latency_ns > 0) {
+                            // the timestamp is taken now and reported to the port later
+                            let ts = nodes[ni].clock.borrow().now;
+                            tx_id += 1;
+                            tx_wait.insert(tx_id, (c, ts));
+                            push(&mut heap, now + spec.tx_ts_latency_ns, EvKind::TxTs { node: ni, port: pi, id: tx_id });
+                        }
                         if let Some(c) = ctx.take() {
                             // the host reports the transmit timestamp right away (statime-linux does)
-                            let r = crate::report::catch(|| collect(nodes[ni].port(pi).handle_send_timestamp(c, time_ns(now))));
+                            let ts = nodes[ni].clock.borrow().now;
+                            let r = crate::report::catch(|| collect(nodes[ni].port(pi).handle_send_timestamp(c, ts)));
                             match r {
                                 Ok(a2) => follow.push((ni, pi, a2)),
                                 Err(p) => {
@@ -186,7 +239,7 @@ pub fn simulate(spec: &NetSpec, faults: &[(u64, Fault)], choices: &mut Choices, 
                         }
                     }
                     Act::SendGeneral { data, .. } => {
-                        transmit(spec, &segments, &silenced, &mut delay_choice, choices, &mut heap, &mut res, now, ni, pi, data, false);
+                        transmit(spec, &segments, &silenced, &mut delay_choice, choices, &mut heap, &mut res, now, ni, pi, data, false, &mut frame_counter);
                     }
                     Act::Forward(_) => {}
                 }
@@ -199,6 +252,9 @@ pub fn simulate(spec: &NetSpec, faults: &[(u64, Fault)], choices: &mut Choices, 
         }
         now = t;
         res.events += 1;
+        for n in nodes.iter() {
+            SimClock::advance_to(&n.clock, now);
+        }
         // periodic events re-arm themselves
         match &ev {
             EvKind::Bmca { node } => {
@@ -206,7 +262,11 @@ pub fn simulate(spec: &NetSpec, faults: &[(u64, Fault)], choices: &mut Choices, 
                 push(&mut heap, now + iv, EvKind::Bmca { node: *node });
             }
             EvKind::Snapshot => {
-                res.snapshots.push(Snapshot { t: now, nodes: nodes.iter().map(view).collect() });
+                res.snapshots.push(Snapshot {
+                    t: now,
+                    nodes: nodes.iter().map(view).collect(),
+                    offsets: nodes.iter().map(|n| time_to_bits(n.clock.borrow().now) as i128 - ((now as i128) << 32)).collect(),
+                });
                 push(&mut heap, now + snapshot_every_ns, EvKind::Snapshot);
                 continue;
             }
@@ -216,14 +276,17 @@ pub fn simulate(spec: &NetSpec, faults: &[(u64, Fault)], choices: &mut Choices, 
             res.delivered.push((now, *node, *port, bytes.first().map(|b| b & 0x0f).unwrap_or(0xff)));
         }
         let touched: Option<usize> = match &ev {
-            EvKind::Deliver { node, .. } | EvKind::Timer { node, .. } | EvKind::Bmca { node } => Some(*node),
+            EvKind::Deliver { node, .. } | EvKind::Timer { node, .. } | EvKind::TxTs { node, .. } | EvKind::Bmca { node } => Some(*node),
             _ => None,
         };
         let before: Option<Vec<PS>> = touched.map(|n| (0..nodes[n].ports.len()).map(|p| nodes[n].port_ref(p).port_ds().port_state).collect());
         let r = crate::report::catch(|| match ev {
             EvKind::Deliver { node, port, bytes, event } => {
                 let a = if event {
-                    collect(nodes[node].port(port).handle_event_receive(&bytes, time_ns(now)))
+                    {
+                        let ts = nodes[node].clock.borrow().now;
+                        collect(nodes[node].port(port).handle_event_receive(&bytes, ts))
+                    }
                 } else {
                     collect(nodes[node].port(port).handle_general_receive(&bytes))
                 };
@@ -242,6 +305,10 @@ pub fn simulate(spec: &NetSpec, faults: &[(u64, Fault)], choices: &mut Choices, 
                     _ => collect(p.handle_filter_update_timer()),
                 };
                 vec![(node, port, a)]
+            }
+            EvKind::TxTs { node, port, id } => {
+                let (c, ts) = tx_wait.remove(&id).expect("pending transmit timestamp");
+                vec![(node, port, collect(nodes[node].port(port).handle_send_timestamp(c, ts)))]
             }
             EvKind::Bmca { node } => {
                 let all = nodes[node].bmca();
@@ -263,6 +330,14 @@ pub fn simulate(spec: &NetSpec, faults: &[(u64, Fault)], choices: &mut Choices, 
             }
             EvKind::Snapshot => vec![],
         });
+        for (ni, n) in nodes.iter().enumerate() {
+            let k = n.clock.borrow();
+            while clock_seen[ni] < k.log.len() {
+                let (tag, c, ok) = k.log[clock_seen[ni]].clone();
+                res.clock_cmds.push((now, ni, tag, c, ok));
+                clock_seen[ni] += 1;
+            }
+        }
         if let (Some(n), Some(b), true) = (touched, &before, r.is_ok()) {
             for p in 0..b.len() {
                 let a = nodes[n].port_ref(p).port_ds().port_state;
@@ -312,14 +387,46 @@ fn transmit(
     port: usize,
     data: &[u8],
     event: bool,
+    frame_counter: &mut u64,
 ) {
     res.sent.push((now, node, port, data.first().map(|b| b & 0x0f).unwrap_or(0xff)));
     if silenced[node] {
         return;
     }
-    // all frames a node sends within one second share one delay choice
-    let interval = now / SEC;
-    let d = *delay_choice.entry((node, interval)).or_insert_with(|| if choices.choose(2) == 0 { spec.delay_min_ns } else { spec.delay_max_ns });
+    let d = match &spec.per_frame {
+        None => {
+            // all frames a node sends within one second share one delay choice
+            let interval = now / SEC;
+            *delay_choice.entry((node, interval)).or_insert_with(|| if choices.choose(2) == 0 { spec.delay_min_ns } else { spec.delay_max_ns })
+        }
+        Some(j) => {
+            let k = *frame_counter;
+            *frame_counter += 1;
+            let span = spec.delay_max_ns - spec.delay_min_ns;
+            let frac: f64 = match j.pattern {
+                0 => 0.0,
+                1 => (k % 2) as f64,
+                _ => {
+                    // Weyl sequence keyed by the seed: low discrepancy, deterministic
+                    let x = (k.wrapping_add(j.seed)).wrapping_mul(0x9E37_79B9_7F4A_7C15);
+                    (x >> 11) as f64 / (1u64 << 53) as f64
+                }
+            };
+            let in_window = now >= j.choice_window_ns.0 && now < j.choice_window_ns.1;
+            let alt = if in_window { choices.choose(3) } else { 0 };
+            match alt {
+                0 => spec.delay_min_ns + (frac * span as f64) as u64,
+                1 => {
+                    if frac < 0.5 {
+                        spec.delay_max_ns
+                    } else {
+                        spec.delay_min_ns
+                    }
+                }
+                _ => return, // lost
+            }
+        }
+    };
     for seg in segments.iter().filter(|s| s.contains(&(node, port))) {
         for &(n2, p2) in seg.iter() {
             if (n2, p2) != (node, port) {
